@@ -61,46 +61,37 @@ Theorem canonical_tags_injective s1 s2 v :
 Proof. exact (canonical_parse_inj s1 s2 v). Qed.
 Print Assumptions canonical_tags_injective.
 
-(* ---- the recorded findings: designs goa accepts whose definition is not valid *)
+(* ---- tags_valid_when_accepted (FULL, after the field-number repairs): whatever scope a
+   message's attributes come from (unmapped or mapped top-level payload / result, streaming
+   payload, user type), if goa's validation accepts them - every attribute, union
+   alternatives included, carries a tag that parses to an integer in 1..2^29-1 outside
+   19000-19999, no NUMBER twice, map keys of a protobuf key type - then the emitted
+   definition is printed (no panic), accepted by the recogniser and has valid pairwise
+   distinct numbers. Distinct proto names remain a hypothesis (recorded finding below). *)
+Theorem tags_valid_when_accepted sc ms :
+  forallb wf_member ms = true -> goa_accepts sc ms = true ->
+  nodup_str (map (fun a => field_name (fst a)) (msg_attrs ms)) = true ->
+  emits_valid ms = true.
+Proof. exact (emits_valid_accepted sc ms). Qed.
+Print Assumptions tags_valid_when_accepted.
+
 Definition i32 := TPrim PInt.
 Definition fld (n t : string) : member := MField (k n) (Some (k t)) false i32.
 
-(* Field(0, "x") *)
-Theorem tags_unique_refuted_zero :
-  let ms := [fld "x" "0"] in
-  goa_accepts TopPlain ms = true /\ emits_valid ms = false /\
-  exists toks, print_msg (Msg [77] ms) = Some toks /\ In (TD 0) toks.
-Proof. split; [reflexivity|]. split; [vm_compute; reflexivity|]. eexists. split; [vm_compute; reflexivity|]. cbn. tauto. Qed.
-Print Assumptions tags_unique_refuted_zero.
-
-(* Field(1, "x") + Field("01", "y"): distinct strings, one number *)
-Theorem tags_unique_refuted_noncanonical :
-  let ms := [fld "x" "1"; fld "y" "01"] in
-  goa_accepts TopPlain ms = true /\ emits_valid ms = false /\
-  rpc_tag (Some (k "1")) = rpc_tag (Some (k "01")).
+(* the designs of the repaired findings are refused now, in every scope *)
+Theorem formerly_accepted_designs_are_rejected sc :
+  goa_accepts sc [fld "x" "0"] = false /\
+  goa_accepts sc [fld "x" "1"; fld "y" "01"] = false /\
+  goa_accepts sc [fld "x" "1"; MOneof (k "u") [(k "a", Some (k "1"), TPrim PString); (k "b", Some (k "2"), i32)]] = false /\
+  goa_accepts sc [fld "x" "19000"] = false /\ goa_accepts sc [fld "x" "536870912"] = false /\
+  goa_accepts sc [fld "x" "abc"] = false /\ goa_accepts sc [fld "x" "-1"] = false /\
+  goa_accepts sc [MField (k "x") None false i32; fld "y" "2"] = false /\ goa_accepts sc [fld "y" "2"; fld "z" "2"] = false /\
+  goa_accepts sc [MField (k "mf") (Some (k "1")) false (TMap (TPrim PFloat64) (TPrim PString))] = false /\
+  goa_accepts sc [fld "x" "18999"; fld "y" "20000"; fld "z" "536870911"; fld "w" "01"] = true.
 Proof. repeat split; vm_compute; reflexivity. Qed.
-Print Assumptions tags_unique_refuted_noncanonical.
+Print Assumptions formerly_accepted_designs_are_rejected.
 
-(* a oneof alternative numbered like a sibling field: unions are skipped by validateRPCTags *)
-Theorem tags_unique_refuted_oneof_sibling :
-  let ms := [fld "x" "1"; MOneof (k "u") [(k "a", Some (k "1"), TPrim PString); (k "b", Some (k "2"), i32)]] in
-  goa_accepts TopPlain ms = true /\ forallb wf_member ms = true /\ emits_valid ms = false.
-Proof. repeat split; vm_compute; reflexivity. Qed.
-Print Assumptions tags_unique_refuted_oneof_sibling.
-
-(* Field(19000, ...) and Field(536870912, ...) are emitted as they are *)
-Theorem tags_unique_refuted_reserved_range :
-  let ms := [fld "x" "19000"] in
-  goa_accepts TopPlain ms = true /\ emits_valid ms = false /\ number_ok 19000 = false /\ number_ok 18999 = true /\ number_ok 20000 = true.
-Proof. repeat split; vm_compute; reflexivity. Qed.
-Print Assumptions tags_unique_refuted_reserved_range.
-
-Theorem tags_unique_refuted_above_max :
-  let ms := [fld "x" "536870912"] in
-  goa_accepts TopPlain ms = true /\ emits_valid ms = false /\ number_ok 536870912 = false /\ number_ok 536870911 = true.
-Proof. repeat split; vm_compute; reflexivity. Qed.
-Print Assumptions tags_unique_refuted_above_max.
-
+(* ---- the recorded findings that remain: designs goa accepts whose definition is not valid *)
 (* fooBar and foo_bar: two attributes, one proto name *)
 Theorem tags_unique_refuted_snake_names :
   let ms := [fld "fooBar" "1"; fld "foo_bar" "2"] in
@@ -108,36 +99,12 @@ Theorem tags_unique_refuted_snake_names :
 Proof. repeat split; vm_compute; reflexivity. Qed.
 Print Assumptions tags_unique_refuted_snake_names.
 
-(* Field("abc", ...): accepted, then rpcTag panics (the printer has no output) *)
-Theorem tags_unique_refuted_nonnumeric_panic :
-  let ms := [fld "x" "abc"] in
-  goa_accepts TopPlain ms = true /\ print_msg (Msg [77] ms) = None /\
-  print_msg (Msg [77] [fld "x" "-1"]) = None.
-Proof. repeat split; vm_compute; reflexivity. Qed.
-Print Assumptions tags_unique_refuted_nonnumeric_panic.
-
-(* inside a user type, or next to a Metadata / Headers / Trailers mapping, nothing is
-   validated: an attribute without Field is emitted as 0, a repeated tag is kept *)
-Theorem tags_unique_refuted_unvalidated_scope :
-  let ms := [MField (k "x") None false i32; fld "y" "2"; fld "z" "2"] in
-  goa_accepts TopPlain ms = false /\ goa_accepts Nested ms = true /\ goa_accepts TopMapped ms = true /\
-  emits_valid ms = false /\ emits_valid [MField (k "x") None false i32] = false /\ emits_valid [fld "y" "2"; fld "z" "2"] = false.
-Proof. repeat split; vm_compute; reflexivity. Qed.
-Print Assumptions tags_unique_refuted_unvalidated_scope.
-
 (* an attribute named 1abc becomes the field 1_abc, which is no identifier *)
 Theorem msgdef_parses_refuted_digit_led_name :
   let ms := [fld "1abc" "1"] in
   goa_accepts TopPlain ms = true /\ field_name (k "1abc") = k "1_abc" /\ ident_ok (k "1_abc") = false /\ emits_valid ms = false.
 Proof. repeat split; vm_compute; reflexivity. Qed.
 Print Assumptions msgdef_parses_refuted_digit_led_name.
-
-(* MapOf(Float64, String): map<double, string> is printed; double is no key type *)
-Theorem msgdef_parses_refuted_map_key :
-  let ms := [MField (k "mf") (Some (k "1")) false (TMap (TPrim PFloat64) (TPrim PString))] in
-  goa_accepts TopPlain ms = true /\ key_ok (native PFloat64) = false /\ emits_valid ms = false.
-Proof. repeat split; vm_compute; reflexivity. Qed.
-Print Assumptions msgdef_parses_refuted_map_key.
 
 (* a user type aliasing a collection: goa prints `message Ints Ints`; not a message *)
 Theorem msgdef_parses_refuted_alias_of_collection :
